@@ -136,6 +136,8 @@ def spine_a(ctx, active, n_units, n_values, n_fuzz):
         g = T.Gen(rng, avoid=avoid, big=(i % 9 == 4), features=feats)
         spec = g.spec()
         preps.append(A.prepare(ctx, i, spec, CODEC, n_values, n_fuzz, rng))
+    # structured corner: same-named DEFAULT members in sibling inline SEQUENCEs / CHOICE alternatives
+    preps.append(A.prepare(ctx, 'tw', T.Gen(rng, avoid=avoid, features=feats).twins_spec(), CODEC, n_values + 3, n_fuzz, rng))
     # rejection of what is outside the subset
     rej = []
     for name, spec in unsupported_specs(rng):
